@@ -391,10 +391,10 @@ func vxC04Lookup() {
 	if vx.Thorough() {
 		nfam = 3
 	}
-	fam := 1 + 0*vx.Choice("fam", 1) //TMP nfam
+	fam := 2 + 0*vx.Choice("fam", 1) //TMP nfam
 	small := fam == 1 && !vx.Thorough()
 	nmax := 3
-	if small {
+	if small || fam == 1 {
 		nmax = 2
 	}
 	n := vx.Choice("n", nmax+1)
@@ -414,7 +414,7 @@ func vxC04Lookup() {
 			czone = "eth0"
 		}
 		cidLen := 1
-		if vx.Thorough() {
+		if vx.Thorough() && fam == 0 {
 			cidLen = 1 + k%2
 		}
 		c := vxC04Client(k, "cli"+string(rune('0'+k)), mask, v6, czone, cidLen, vxC04MacLens[(k+fam)%3], false)
@@ -426,7 +426,7 @@ func vxC04Lookup() {
 
 	// The request.
 	nid := 2
-	if vx.Thorough() {
+	if vx.Thorough() && fam == 0 {
 		nid = 3
 	}
 	if small {
